@@ -134,6 +134,26 @@ def run_align(ck, tier, pid):
         if len(own) != 1:
             raise vlib.Infra("binding self-test failed: corrupted record accepted (%s)" % v)
         ck.parts.append({"part": "binding-selftest", "note": "corrupted record rejected: " + own[0][1]})
+        if pid == "C08":
+            # extension (beyond C08/C09): the matrices package align/matrix hands to the aligners
+            mp = os.path.join(work, "matrices.ndjson")
+            vlib.harness(["matrices", "-out", mp], cmd="valign")
+            vm, r = vlib.validate("Align", "Matrices", "Matrices.cfg", mp, timeout=600)
+            ck.mc("trace:matrices (extension)", r, "%d records: the 78 shipped scoring matrices and matrix.Match on every built-in alphabet" % vm["events"])
+            ck.extra["extension_events"] = vm["events"]
+            ck.extra["extension_drift"] = len(vm["drift"])
+            mevs = vlib.read_ndjson(mp)
+            if vm["drift"]:
+                vlib.log("  [note] extension (Matrices.tla): %d of %d records differ from the specification (drift, no verdict); first: %s"
+                         % (len(vm["drift"]), vm["events"], json.dumps(mevs[vm["drift"][0] - 1])[:300]))
+            else:
+                bad = json.loads(json.dumps(mevs[0]))
+                bad["M"][1][2] += 1
+                bp = os.path.join(work, "matrices-bad.ndjson")
+                vlib.write_ndjson(bp, [bad])
+                vb, r = vlib.validate("Align", "Matrices", "Matrices.cfg", bp, timeout=600)
+                if not vb["drift"]:
+                    raise vlib.Infra("Matrices specification accepts a corrupted matrix")
     finally:
         shutil.rmtree(work, ignore_errors=True)
 
